@@ -24,6 +24,7 @@ import Poulpy.Lemmas.CoreCmp
 import Poulpy.Lemmas.CoreSerDec
 import Poulpy.Lemmas.CoreCmpT
 import Poulpy.Lemmas.CoreSerAll
+import Poulpy.Lemmas.CoreSerCont
 
 namespace C19
 open CoreEnc
@@ -312,6 +313,44 @@ open Ser CoreSerAll in
 example : "lwe_compressed" ∈ compressedVecTypes ∧
     (lweOfState (fun s => s ++ [5, 6, 7, 8, 9, 10]) 2 ⟨[6, 3], [⟨1, List.replicate 32 2⟩], [.vec ⟨1, 1, 2, 2, List.replicate 16 1⟩], 0⟩).isSome := by
   decide
+
+open Ser CoreSerCont in
+/-- **the two compressed container types** — `GGLWEToGGSWKeyCompressed` (`[keys.len()]` then one `GGLWECompressed` per key) and
+`BlindRotationKeyCompressed` (`Distribution`, `[keys.len()]`, then one `GGSWCompressed` per LWE coefficient) — with the reader and
+writer of C18's tables: for every list `xs` of admissible source elements and every receiver with the same number of elements,
+each with the capacity (`ElemOK`), in both build profiles: write succeeds; reading the written bytes (followed by any tail) at
+the moving cursors succeeds, leaves the tail, and returns a state with the source's header fields and seeds whose every element
+has the source's stored cells — so `decompress` of the received container equals `decompress` of the source, element by
+element, cell by cell. -/
+theorem container_compressed_serialise_decompress (mem : Nat) (p : Profile) (xs rs : List CElem) (hall : List.Forall₂ (ElemOK mem) xs rs)
+    (hlen : xs.length < 2 ^ 64) (mx : Nat) (tail : Bytes) :
+    (∃ r w, readerOf "gglwe_to_ggsw_key_compressed" = some r ∧ writerOf p "gglwe_to_ggsw_key_compressed" = some w ∧
+      ∃ bs rs', w (contState [] xs mx) = .ok bs ∧ r (contState [] rs mem) (bs ++ tail) = .ok () rs' tail ∧
+        rs'.fields = (contState [] xs mx).fields ∧ rs'.seeds = (contState [] xs mx).seeds ∧
+        contCellsOf rs' = contCellsOf (contState [] xs mx) ∧
+        ∀ expand b n rank, contDecompress expand b n rank rs' = contDecompress expand b n rank (contState [] xs mx)) ∧
+    (∀ (tag pl t0 p0 : Nat), DistCanon tag pl →
+      ∃ r w, readerOf "blind_rotation_key_compressed" = some r ∧ writerOf p "blind_rotation_key_compressed" = some w ∧
+      ∃ bs rs', w (contState [tag, pl] xs mx) = .ok bs ∧ r (contState [t0, p0] rs mem) (bs ++ tail) = .ok () rs' tail ∧
+        rs'.fields = (contState [tag, pl] xs mx).fields ∧ rs'.seeds = (contState [tag, pl] xs mx).seeds ∧
+        contCellsOf rs' = contCellsOf (contState [tag, pl] xs mx) ∧
+        ∀ expand b n rank, contDecompress expand b n rank rs' = contDecompress expand b n rank (contState [tag, pl] xs mx)) := by
+  constructor
+  · obtain ⟨bs, rs', h1, h2, h3, h4, h5⟩ := g2g_rt mem p xs rs hall hlen mx tail
+    exact ⟨_, _, rfl, rfl, bs, rs', h1, h2, h3, h4, h5, fun _ _ _ _ => by unfold contDecompress; rw [h5]⟩
+  · intro tag pl t0 p0 hd
+    obtain ⟨bs, rs', h1, h2, h3, h4, h5⟩ := brk_rt mem p xs rs hall hlen tag pl t0 p0 hd mx tail
+    exact ⟨_, _, rfl, rfl, bs, rs', h1, h2, h3, h4, h5, fun _ _ _ _ => by unfold contDecompress; rw [h5]⟩
+
+open Ser CoreSerCont in
+/-- non-vacuity: a container of two one-cell elements (admissible, receiver with capacity) and its decoded view -/
+example : List.Forall₂ (ElemOK 64) [⟨6, 3, 1, 1, 1, List.replicate 32 2, ⟨2, 1, 1, 1, 1, List.replicate 16 1⟩⟩, ⟨6, 3, 1, 1, 1, List.replicate 32 4, ⟨2, 1, 1, 1, 1, List.replicate 16 5⟩⟩]
+      [⟨0, 0, 0, 0, 0, [], ⟨2, 1, 1, 1, 1, List.replicate 16 0⟩⟩, ⟨0, 0, 0, 0, 0, [], ⟨2, 1, 1, 1, 1, List.replicate 16 0⟩⟩] ∧
+    ((contCellsOf (contState [] [⟨6, 3, 1, 1, 1, List.replicate 32 2, ⟨2, 1, 1, 1, 1, List.replicate 16 1⟩⟩, ⟨6, 3, 1, 1, 1, List.replicate 32 4, ⟨2, 1, 1, 1, 1, List.replicate 16 5⟩⟩] 64)).map
+      (fun o => o.map List.length)) = [some 1, some 1] := by
+  refine ⟨?_, by decide⟩
+  refine List.Forall₂.cons ?_ (List.Forall₂.cons ?_ List.Forall₂.nil) <;>
+    (unfold ElemOK MatRT MatWF MatZnx.Inv; decide)
 
 /-! ### the scratch temporary, tensor keys, blind-rotation keys, LWE -/
 
